@@ -209,7 +209,7 @@ example : EqRefl flatOps ∧ ∀ a b : Msg, flatOps.eq a b = true → a = b := b
 theorem C01_nested_update_none_is_plain (cfg : Cfg M K R) (s : CState M R) (id : String) (msg : M)
     (wr : WriteReq M K) (site : Site) :
     Coll.updateN cfg s id msg wr site [] = ((Coll.update cfg s id msg wr).1, (Coll.update cfg s id msg wr).2, []) := by
-  unfold Coll.updateN Coll.update
+  unfold Coll.updateN Coll.update Coll.updateAt
   dsimp only
   cases hv : cfg.ops.validate (fieldUpdater cfg wr) msg with
   | some c => simp
@@ -389,6 +389,184 @@ example :
       [.add "b" { a := 5, s := "", c := none } {}, .get "a" {}]
     (r.1.err, r.2.1.items.map (fun kv => (kv.1, kv.2.body.a)), r.1.events.map (fun e => (e.id, e.kind))) =
     (none, [("b", 5), ("a", 3)], [("b", .add), ("a", .add)]) := by
+  decide
+
+/-! ## `Collection.Delete` whose expected check calls the Collection again (`Coll.deleteN`) -/
+
+/-- A check that makes no call is an ordinary check: the Delete of `Model.lean`. -/
+theorem C01_nested_delete_none_is_plain (cfg : Cfg M K R) (h : EqRefl cfg.ops) (s : CState M R) (id : String)
+    (wr : WriteReq M K) (site : Site) :
+    Coll.deleteN cfg s id wr site [] = ((Coll.delete cfg s id wr).1, (Coll.delete cfg s id wr).2, []) := by
+  unfold Coll.deleteN
+  dsimp only
+  cases site <;> try rfl
+  cases hc : wr.expectedCheck with
+  | none => rfl
+  | some chk =>
+    cases hl : lookup s.items (icptId cfg id) with
+    | none => rfl
+    | some it =>
+      simp only [Coll.run, eventsOfC, List.nil_append, deleteSecond]
+      unfold Coll.delete
+      rw [deleteLoop_first cfg h wr (icptId cfg id) 4 s]
+      simp only [hl, hc, sameItem_refl h]
+      cases hcv : chk (some it.body) with
+      | some e => simp
+      | none =>
+        cases hev : wr.expectedValue with
+        | none => simp
+        | some ev => cases hq : cfg.ops.eq it.body ev <;> simp [hq]
+
+/-- "A call that fails changes nothing and emits nothing", for a Delete whose check makes calls: a failing
+Delete emits no event of its own, and the Collection (contents, clock, rng) is EXACTLY what the calls made
+from its check left - also when those calls changed the item and Delete went round its loop and judged the
+new item - or, when the check was never invoked (no check, another site, no item), what it was. -/
+theorem C01_nested_delete_failed_call_frame (cfg : Cfg M K R) (h : EqRefl cfg.ops) (s : CState M R) (id : String)
+    (wr : WriteReq M K) (site : Site) (calls : List (COp M K)) :
+    (Coll.deleteN cfg s id wr site calls).1.err ≠ none →
+      (Coll.deleteN cfg s id wr site calls).1.events = eventsOfC (Coll.deleteN cfg s id wr site calls).2.2 ∧
+      (((Coll.deleteN cfg s id wr site calls).2.2 = [] ∧ (Coll.deleteN cfg s id wr site calls).2.1 = s) ∨
+       ((Coll.deleteN cfg s id wr site calls).2.2 = (Coll.run cfg s calls).1 ∧
+        (Coll.deleteN cfg s id wr site calls).2.1 = (Coll.run cfg s calls).2)) := by
+  have plain : (Coll.delete cfg s id wr).1.err ≠ none →
+      (Coll.delete cfg s id wr).1.events = eventsOfC ([] : List (CRes M)) ∧
+      ((([] : List (CRes M)) = [] ∧ (Coll.delete cfg s id wr).2 = s) ∨
+       (([] : List (CRes M)) = (Coll.run cfg s calls).1 ∧ (Coll.delete cfg s id wr).2 = (Coll.run cfg s calls).2)) := by
+    intro hf
+    have := deleteLoop_fail_frame cfg h wr (icptId cfg id) 4 s hf
+    exact ⟨this.2, Or.inl ⟨rfl, this.1⟩⟩
+  unfold Coll.deleteN
+  dsimp only
+  cases site <;> try exact plain
+  cases hc : wr.expectedCheck with
+  | none => exact plain
+  | some chk =>
+    cases hl : lookup s.items (icptId cfg id) with
+    | none => exact plain
+    | some it =>
+      dsimp only
+      cases hcv : chk (some it.body) with
+      | some e => intro _; exact ⟨rfl, Or.inr ⟨rfl, rfl⟩⟩
+      | none =>
+        dsimp only
+        have rest : (deleteSecond cfg wr (icptId cfg id) it (Coll.run cfg s calls).2).1.err ≠ none →
+            (eventsOfC (Coll.run cfg s calls).1 ++
+                (deleteSecond cfg wr (icptId cfg id) it (Coll.run cfg s calls).2).1.events =
+              eventsOfC (Coll.run cfg s calls).1) ∧
+            (deleteSecond cfg wr (icptId cfg id) it (Coll.run cfg s calls).2).2 = (Coll.run cfg s calls).2 := by
+          intro hf
+          have := deleteSecond_fail_frame cfg h wr (icptId cfg id) it (Coll.run cfg s calls).2 hf
+          exact ⟨by simp [this.2], this.1⟩
+        cases hev : wr.expectedValue with
+        | none =>
+          dsimp only
+          rw [if_neg Bool.false_ne_true]
+          dsimp only
+          intro hf
+          exact ⟨(rest hf).1, Or.inr ⟨rfl, (rest hf).2⟩⟩
+        | some ev =>
+          dsimp only
+          by_cases hq : cfg.ops.eq it.body ev = true
+          · rw [if_neg (by simp [hq])]
+            dsimp only
+            intro hf
+            exact ⟨(rest hf).1, Or.inr ⟨rfl, (rest hf).2⟩⟩
+          · rw [if_pos (by simpa using hq)]
+            intro _; exact ⟨rfl, Or.inr ⟨rfl, rfl⟩⟩
+
+/-- A Delete whose check was invoked and that succeeds removes and returns what is stored under the id WHEN
+IT DELETES - after the calls its check made - never the stale item it showed to the check: either those calls
+removed the item (the Delete tolerates a missing item: nothing returned, nothing more removed, no event of its
+own), or the returned message is `proto.Equal` to the stored one (it is the stored one whenever the calls
+touched the item), the contents are those the calls left minus the id, and its REMOVE event follows theirs. -/
+theorem C01_nested_delete_removes_current (cfg : Cfg M K R) (h : EqRefl cfg.ops) (s : CState M R) (id : String)
+    (wr : WriteReq M K) (calls : List (COp M K)) (chk : Option M → Option Code) (it : Item M)
+    (hc : wr.expectedCheck = some chk) (hl : lookup s.items (icptId cfg id) = some it)
+    (hok : (Coll.deleteN cfg s id wr .chk calls).1.err = none) :
+    (Coll.deleteN cfg s id wr .chk calls).2.2 = (Coll.run cfg s calls).1 ∧
+    ((lookup (Coll.run cfg s calls).2.items (icptId cfg id) = none ∧
+        (Coll.deleteN cfg s id wr .chk calls).1.val = none ∧
+        (Coll.deleteN cfg s id wr .chk calls).2.1 = (Coll.run cfg s calls).2 ∧
+        (Coll.deleteN cfg s id wr .chk calls).1.events = eventsOfC (Coll.run cfg s calls).1) ∨
+     (∃ cur b, lookup (Coll.run cfg s calls).2.items (icptId cfg id) = some cur ∧
+        cfg.ops.eq cur.body b = true ∧
+        (Coll.deleteN cfg s id wr .chk calls).1.val = some b ∧
+        (Coll.deleteN cfg s id wr .chk calls).2.1 =
+          { (Coll.run cfg s calls).2 with clock := (Coll.run cfg s calls).2.clock + cfg.tick,
+                                          items := eraseItem (Coll.run cfg s calls).2.items (icptId cfg id) } ∧
+        (Coll.deleteN cfg s id wr .chk calls).1.events = eventsOfC (Coll.run cfg s calls).1 ++
+          [{ id := icptId cfg id, time := (Coll.run cfg s calls).2.clock, kind := .remove, old := some b,
+             new := none }])) := by
+  revert hok
+  unfold Coll.deleteN
+  simp only [hc, hl]
+  have rest : (deleteSecond cfg wr (icptId cfg id) it (Coll.run cfg s calls).2).1.err = none → _ :=
+    deleteSecond_ok cfg h wr (icptId cfg id) it (Coll.run cfg s calls).2
+  have fin : (deleteSecond cfg wr (icptId cfg id) it (Coll.run cfg s calls).2).1.err = none →
+      (lookup (Coll.run cfg s calls).2.items (icptId cfg id) = none ∧
+        (deleteSecond cfg wr (icptId cfg id) it (Coll.run cfg s calls).2).1.val = none ∧
+        (deleteSecond cfg wr (icptId cfg id) it (Coll.run cfg s calls).2).2 = (Coll.run cfg s calls).2 ∧
+        eventsOfC (Coll.run cfg s calls).1 ++ (deleteSecond cfg wr (icptId cfg id) it (Coll.run cfg s calls).2).1.events
+          = eventsOfC (Coll.run cfg s calls).1) ∨
+      (∃ cur b, lookup (Coll.run cfg s calls).2.items (icptId cfg id) = some cur ∧
+        cfg.ops.eq cur.body b = true ∧
+        (deleteSecond cfg wr (icptId cfg id) it (Coll.run cfg s calls).2).1.val = some b ∧
+        (deleteSecond cfg wr (icptId cfg id) it (Coll.run cfg s calls).2).2 =
+          { (Coll.run cfg s calls).2 with clock := (Coll.run cfg s calls).2.clock + cfg.tick,
+                                          items := eraseItem (Coll.run cfg s calls).2.items (icptId cfg id) } ∧
+        eventsOfC (Coll.run cfg s calls).1 ++ (deleteSecond cfg wr (icptId cfg id) it (Coll.run cfg s calls).2).1.events
+          = eventsOfC (Coll.run cfg s calls).1 ++
+            [{ id := icptId cfg id, time := (Coll.run cfg s calls).2.clock, kind := .remove, old := some b,
+               new := none }]) := by
+    intro hok
+    rcases rest hok with ⟨h1, h2, h3, h4⟩ | ⟨cur, b, h1, h2, h3, h4, h5⟩
+    · exact Or.inl ⟨h1, h2, h3, by simp [h4]⟩
+    · exact Or.inr ⟨cur, b, h1, h2, h3, h4, by rw [h5]⟩
+  cases hcv : chk (some it.body) with
+  | some e => intro hok; simp at hok
+  | none =>
+    dsimp only
+    cases hev : wr.expectedValue with
+    | none =>
+      dsimp only
+      rw [if_neg Bool.false_ne_true]
+      dsimp only
+      intro hok
+      exact ⟨rfl, fin hok⟩
+    | some ev =>
+      dsimp only
+      by_cases hq : cfg.ops.eq it.body ev = true
+      · rw [if_neg (by simp [hq])]
+        dsimp only
+        intro hok
+        exact ⟨rfl, fin hok⟩
+      · rw [if_pos (by simpa using hq)]
+        intro hok; simp at hok
+
+/-- item a = 1 is stored; the Delete's check (passes on a = 1 only) first updates the item to a = 5: the item
+read is no longer the item stored, Delete goes round its loop, its check judges the NEW item and refuses:
+the item written by the nested call stays, the only event is the nested UPDATE -/
+example :
+    let cfg : Cfg Msg Mask (List Nat) := { ops := flatOps, gen := flatGen }
+    let chk : Option Msg → Option Code := fun o => if (o.map (·.a)) = some 1 then none else some .failedPrecondition
+    let r := Coll.deleteN cfg (Coll.init cfg [("a", { a := 1, s := "", c := none })] []) "a"
+      { expectedCheck := some chk } .chk [.update "a" { a := 5, s := "", c := none } {}]
+    (r.1.err, r.1.val.map (·.a), r.2.1.items.map (fun kv => (kv.1, kv.2.body.a)), r.1.events.map (fun e => (e.id, e.kind))) =
+    (some .failedPrecondition, some 5, [("a", 5)], [("a", .update)]) := by
+  decide
+
+/-- with a check that passes on anything the same Delete removes and returns the item the nested call wrote
+(a = 5), not the item it showed to the check (a = 1); and when the nested call deletes the item, the Delete
+answers NotFound and the only event is the nested REMOVE -/
+example :
+    let cfg : Cfg Msg Mask (List Nat) := { ops := flatOps, gen := flatGen }
+    let s0 := Coll.init cfg [("a", { a := 1, s := "", c := none })] []
+    let r := Coll.deleteN cfg s0 "a" { expectedCheck := some (fun _ => none) } .chk
+      [.update "a" { a := 5, s := "", c := none } {}]
+    let q := Coll.deleteN cfg s0 "a" { expectedCheck := some (fun _ => none) } .chk [.delete "a" {}]
+    (r.1.err, r.1.val.map (·.a), r.2.1.items.length, r.1.events.map (fun e => (e.kind, e.old.map (·.a)))) =
+      (none, some 5, 0, [(.update, some 1), (.remove, some 5)]) ∧
+    (q.1.err, q.1.val, q.1.events.map (fun e => e.kind)) = (some .notFound, none, [.remove]) := by
   decide
 
 end ScVerif.C01
